@@ -58,6 +58,10 @@ P0 == P(128, 64)
 PA == P(64, 128)
 PB == P(192, 32)
 PC == P(128, 16)
+\* a protocol step is a function parameter name -> value that need not name every parameter:
+\* Keep marks a parameter the step does not name (it keeps the value in force)
+Keep == 0 - 1
+Overlay(p0, p) == [kin |-> IF p.kin = Keep THEN p0.kin ELSE p.kin, kk |-> IF p.kk = Keep THEN p0.kk ELSE p.kk]
 PZ == P(0, 64)           \* zero is a parameter value like any other: no influx, pure decay towards 0
 
 \* history of the state: hist[1] is where the state came from ("init": the simulator's initial
@@ -97,7 +101,7 @@ TimeCourse(s, pts) ==
     IF ~TLt(s.now, Shifted(s, pts[Len(pts)])) THEN Refuse(s)
     ELSE Ok(AppendSeg(s, SelectSeq(pts, LAMBDA q : TLt(s.now, Shifted(s, q)))))   \* earlier points are dropped
 
-SetPars(s, p) == [s EXCEPT !.p = p]
+SetPars(s, p) == [s EXCEPT !.p = Overlay(s.p, p)]
 UpdPar(s, name, v) == SetPars(s, IF name = "k" THEN [s.p EXCEPT !.kk = v] ELSE [s.p EXCEPT !.kin = v])
 
 \* time unchanged, no segment; the next segment starts from the overridden state
@@ -169,6 +173,7 @@ StepRec(d, p) == [d |-> d, p |-> p]
 
 Proto2 == <<StepRec(2, PA), StepRec(4, PB)>>
 Proto3 == <<StepRec(2, PB), StepRec(2, PA), StepRec(6, PB)>>
+ProtoP == <<StepRec(2, PA), StepRec(2, P(Keep, 32)), StepRec(2, P(192, Keep))>>   \* steps naming different parameters
 ProtoZ == <<StepRec(2, PA), StepRec(2, PZ), StepRec(2, PB)>>      \* an "off" phase between two non-zero steps
 Rel(t, ds) == [j \in 1..Len(ds) |-> TAdd(t, ds[j])]
 
@@ -200,6 +205,7 @@ Menu(s) ==
                \* zero as a value: set, scale by zero, an off phase inside a protocol (both forms)
                OpUpd("kin", IF s.p.kin = 0 THEN 128 ELSE 0), OpScale("kin", 0),
                OpProto(ProtoZ, 1), OpPtcAbs(ProtoZ, Rel(t, <<1, 3, 5>>)),
+               OpProto(ProtoP, 1), OpPtcRel(ProtoP, <<1000, 3000, 5000>>),
                OpOv(10), OpSs(T(s.nss + 1, 0)), OpClear, OpRead >>
 
 Init == st = Fresh /\ h = <<>>
@@ -269,18 +275,23 @@ SegChain ==
            /\ (i > 1 => \A m \in (st.segs[i - 1].sidx + 2)..g.sidx : st.hist[m].k = "ov")
 NowIsLast == st.now = (IF st.segs = <<>> THEN Zero ELSE st.segs[Len(st.segs)].times[Len(st.segs[Len(st.segs)].times)])
 
+ParsAfter(p0, steps, i) == FoldLeft(LAMBDA a, x : Overlay(a, x.p), p0, SubSeq(steps, 1, i))
+UpdNamed(x, p) ==
+    LET a == IF p.kin = Keep THEN x ELSE Eff(OpUpd("kin", p.kin), x).st
+    IN IF p.kk = Keep THEN a ELSE Eff(OpUpd("k", p.kk), a).st
+
 \* C14: step i's values govern exactly (b_{i-1}, b_i]; one segment per step; last values stay in force
 StepsOf(op, s) == (op.k \in {"proto", "ptc"} /\ ~Eff(op, s).raised) => LET r == Eff(op, s)
                                                                          k0 == Len(s.segs)
                                                                          m == Len(op.steps) IN
     /\ Len(r.st.segs) = k0 + m
-    /\ r.st.p = op.steps[m].p
+    /\ r.st.p = ParsAfter(s.p, op.steps, m)
     /\ r.st.now = Bound(s.now, op.steps, m)
     /\ \A i \in 1..m :
          LET g == r.st.segs[k0 + i]
              lo == Bound(s.now, op.steps, i - 1)
              hi == Bound(s.now, op.steps, i)
-         IN /\ g.p = op.steps[i].p
+         IN /\ g.p = ParsAfter(s.p, op.steps, i)      \* the step's values; what it does not name keeps its value
             /\ g.t0 = lo
             /\ g.times[Len(g.times)] = hi
             /\ \A j \in 1..Len(g.times) :
@@ -292,8 +303,7 @@ StepIntervals == \A i \in 1..Len(Menu(st)) : StepsOf(Menu(st)[i], st)
 ComposedProto(op, s) ==
     LET start == s.now
     IN Chain(LAMBDA x, i :
-                 Eff(OpSim(Bound(start, op.steps, i), op.n),
-                     Eff(OpUpd("k", op.steps[i].p.kk), Eff(OpUpd("kin", op.steps[i].p.kin), x).st).st),
+                 Eff(OpSim(Bound(start, op.steps, i), op.n), UpdNamed(x, op.steps[i].p)),
              s, Len(op.steps))
 ComposedPtc(op, s) ==
     LET start == s.now
@@ -303,7 +313,7 @@ ComposedPtc(op, s) ==
                  LET lo == Bound(start, op.steps, i - 1)
                      hi == Bound(start, op.steps, i)
                  IN Eff(OpTc(SortTimes({q \in Range(pts) : TLt(lo, q) /\ TLe(q, hi)} \cup {hi})),
-                        Eff(OpUpd("k", op.steps[i].p.kk), Eff(OpUpd("kin", op.steps[i].p.kin), x).st).st),
+                        UpdNamed(x, op.steps[i].p)),
              s, Len(op.steps))
 CompositionOf(op, s) ==
     /\ op.k = "proto" => Eff(op, s) = ComposedProto(op, s)
